@@ -470,6 +470,7 @@ func c04Enum(c *core.Ctx, p c04Params) {
 		c04NoQueue(c, "a.b")
 		c04NoQueue(c, "")
 		c04NoLogger(c)
+		c04Rendezvous(c)
 		c04StoreBacked(c, "mock")
 		c04StoreBacked(c, "badger")
 		c04WideOwnership(c, "library")
@@ -891,6 +892,100 @@ func c04LoggerCfg(c *core.Ctx, ci int, name string, l logger.Logger) bool {
 	}
 	c.Obs("on_error_callbacks", atomic.LoadInt64(&onErr))
 	return true
+}
+
+// c04Rendezvous: after bursts of short requests on many resources, four requests for four
+// different resources are sent whose handlers reply once all four are running. The
+// service has its default 32 workers and the four resources are four groups, so the four
+// handlers run side by side and every request gets its response - unless the load before
+// has cost the service its workers.
+func c04Rendezvous(c *core.Ctx) {
+	const n = 4
+	var mu sync.Mutex
+	waiting, gate, stop := 0, make(chan struct{}), make(chan struct{})
+	rg := newRig("svc", func(s *res.Service) {
+		s.Handle("rv.$id", res.Access(res.AccessGranted),
+			res.Call("meet", func(r res.CallRequest) {
+				mu.Lock()
+				waiting++
+				g := gate
+				if waiting == n {
+					close(g)
+				}
+				mu.Unlock()
+				select {
+				case <-g:
+				case <-stop:
+				}
+				r.OK(nil)
+			}),
+			res.Call("ping", func(r res.CallRequest) { r.OK(nil) }))
+	})
+	if err := rg.start(); err != nil {
+		c.Inconclusive("service failed to start: " + err.Error())
+		return
+	}
+	stuck := false
+	defer func() {
+		close(stop)
+		if stuck {
+			go rg.stop()
+		} else {
+			rg.stop()
+		}
+	}()
+	for round := 0; round < 40; round++ {
+		var dones []chan struct{}
+		for k := 0; k < 48; k++ {
+			_, done, _ := rg.send(fmt.Sprintf("call.svc.rv.l%d.ping", k), nil)
+			dones = append(dones, done)
+		}
+		for _, d := range dones {
+			if !waitCh(d, 15*time.Second) {
+				c.Inconclusive("rendezvous scenario: load request not processed")
+				return
+			}
+		}
+		mu.Lock()
+		waiting, gate = 0, make(chan struct{})
+		mu.Unlock()
+		start := rg.C.Len()
+		var inboxes []string
+		dones = dones[:0]
+		for k := 0; k < n; k++ {
+			inbox, done, delivered := rg.send(fmt.Sprintf("call.svc.rv.m%d.meet", k), nil)
+			if delivered != 1 {
+				c.Inconclusive("rendezvous scenario: request not delivered")
+				return
+			}
+			inboxes, dones = append(inboxes, inbox), append(dones, done)
+		}
+		c.Eval(n)
+		c.Obs("rendezvous_requests", n)
+		for _, d := range dones {
+			// four handlers that only wait for each other, on an otherwise idle service
+			if !waitCh(d, 25*time.Second) {
+				mu.Lock()
+				w := waiting
+				mu.Unlock()
+				got := 0
+				for _, ib := range inboxes {
+					r, _ := replies(rg.C.Since(start), ib)
+					got += len(r)
+				}
+				stuck = true
+				c.Violation("C04/no-response:rendezvous", fmt.Sprintf("round %d: %d requests for %d different resources whose handlers wait for each other: after 25 s %d of the handlers had been started and %d responses sent - the service no longer runs different resources side by side", round, n, n, w, got),
+					map[string]interface{}{"round": round, "handlers_started": w, "responses": got, "load_before": "bursts of 48 short call requests on 48 resources", "worker_count": "default (32)"})
+				return
+			}
+		}
+		for _, ib := range inboxes {
+			if r, _ := replies(rg.C.Since(start), ib); len(r) != 1 {
+				c.Violation("C04/no-response:rendezvous", fmt.Sprintf("rendezvous request got %d responses", len(r)), map[string]interface{}{"round": round, "responses": payloadStrs(r)})
+			}
+		}
+		c.Distinct(fmt.Sprintf("rendezvous/%d", round))
+	}
 }
 
 // c04Restart: requests to resources whose work was still queued when the
